@@ -7,6 +7,7 @@
 #include <sys/time.h>
 #include <sys/syscall.h>
 #include <unistd.h>
+#include <sched.h>
 
 static std::atomic<int64_t> g_vclock_ns(VCLOCK_T0);
 
@@ -60,15 +61,37 @@ time_t time(time_t *t) noexcept
 	return v;
 }
 
-int clock_nanosleep(clockid_t, int, const struct timespec *, struct timespec *)
+// Sleeps: the requested duration is measured on the virtual clock (hypersleep computes an
+// absolute CLOCK_MONOTONIC deadline from the interposed clock_gettime); the thread sleeps that
+// long in REAL time but at most 200 us, so that pollers (Logger 200 us, Timer 10 ms) neither spin
+// nor slow the harness down, and Session::stop() (250 ms) / ~Session() (1 s) cost 0.2 ms.
+static void capped_real_sleep(int64_t want_ns)
 {
-	vclock_real_sleep_us(100);
+	if (want_ns <= 0)
+	{
+		sched_yield();
+		return;
+	}
+	const int64_t cap(200000);
+	vclock_real_sleep_us(static_cast<unsigned>((want_ns < cap ? want_ns : cap) / 1000 + 1));
+}
+
+int clock_nanosleep(clockid_t, int flags, const struct timespec *req, struct timespec *)
+{
+	int64_t want(0);
+	if (req)
+	{
+		want = static_cast<int64_t>(req->tv_sec) * 1000000000LL + req->tv_nsec;
+		if (flags & TIMER_ABSTIME)
+			want -= vclock_get();
+	}
+	capped_real_sleep(want);
 	return 0;
 }
 
-int nanosleep(const struct timespec *, struct timespec *)
+int nanosleep(const struct timespec *req, struct timespec *)
 {
-	vclock_real_sleep_us(100);
+	capped_real_sleep(req ? static_cast<int64_t>(req->tv_sec) * 1000000000LL + req->tv_nsec : 0);
 	return 0;
 }
 
